@@ -852,6 +852,10 @@ inductive Cons where
   | unpack                         -- `a, b, c = it`
   | copyAt (k : Nat) (copyFirst : Bool)
   | peekOps (ops : List PeekOp)    -- `.peekable()` on the pipeline, then next/next_back/peek/peek_back
+  /-- `pre` calls, then `c = koto.copy it`, then interleaved calls `(onCopy, isNext)` on copy / original -/
+  | copyOps (pre : List Bool) (post : List (Bool × Bool))
+  /-- the same on `it = pipeline.peekable()` with the `Peekable` operations -/
+  | peekCopy (pre : List PeekOp) (post : List (Bool × PeekOp))
   deriving Repr, Inhabited
 
 def endMarker : Val := .str [69, 78, 68]   -- 'END'
@@ -988,6 +992,33 @@ def runCalls : List Bool → It → List Val × It × List Ev
     let (vs, it'', e') := runCalls ds it'
     (o.getD endMarker :: vs, it'', e ++ e')
 
+/-- interleaved calls on a copy `a` and the original `b` (two values of the same state type);
+returns the outputs of the copy, the outputs of the original, and all events in call order -/
+def runCopyOps : List (Bool × Bool) → It → It → List Val × List Val × List Ev
+  | [], _, _ => ([], [], [])
+  | (onCopy, d) :: rest, a, b =>
+    if onCopy then
+      let (o, a', e) := if d then a.next else a.back
+      let (xs, ys, e') := runCopyOps rest a' b
+      (o.getD endMarker :: xs, ys, e ++ e')
+    else
+      let (o, b', e) := if d then b.next else b.back
+      let (xs, ys, e') := runCopyOps rest a b'
+      (xs, o.getD endMarker :: ys, e ++ e')
+
+/-- the same for two `Peekable` states -/
+def runPeekCopyOps (c : Co) : List (Bool × PeekOp) → Peek c.σ → Peek c.σ → List Val × List Val × List Ev
+  | [], _, _ => ([], [], [])
+  | (onCopy, op) :: rest, a, b =>
+    if onCopy then
+      let r := peekStep c op a
+      let (xs, ys, e') := runPeekCopyOps c rest r.st b
+      (r.out.getD endMarker :: xs, ys, r.ev ++ e')
+    else
+      let r := peekStep c op b
+      let (xs, ys, e') := runPeekCopyOps c rest a r.st
+      (xs, r.out.getD endMarker :: ys, r.ev ++ e')
+
 /-- `iterator.advance`: returns the number of steps that could not be taken -/
 def advanceIt : Nat → It → Nat × It × List Ev
   | 0, it => (0, it, [])
@@ -1012,6 +1043,10 @@ def runCons (fuel : Nat) (it : It) : Cons → Ans × List Ev
     let (r, it', e) := advanceIt n it
     let (a, _, e') := drain fuel it'
     (a.map (fun l => Val.tuple [Val.int r, l]), e ++ e')
+  | .copyOps pre post =>
+    let (vs, it', e) := runCalls pre it
+    let (xs, ys, e') := runCopyOps post it' it'
+    (.ok (.tuple [.list vs, .list xs, .list ys]), e ++ e')
   | .unpack =>
     let (vs, _, e) := runCalls [true, true, true] it
     (.ok (.tuple (vs.map (fun v => if Val.same v endMarker then Val.null else v))), e)
@@ -1038,6 +1073,11 @@ def runCase (fuel : Nat) (p : Pipe) (c : Cons) : Ans × List Ev :=
       let it := build fuel p
       let (vs, _, e) := runPeekOps it.c endMarker ops ⟨it.s, none, none⟩
       (.ok (.list vs), e)
+    | .peekCopy pre post =>
+      let it := build fuel p
+      let (vs, s', e) := runPeekOps it.c endMarker pre ⟨it.s, none, none⟩
+      let (xs, ys, e') := runPeekCopyOps it.c post s' s'
+      (.ok (.tuple [.list vs, .list xs, .list ys]), e ++ e')
     | c => runCons fuel (build fuel p) c
 
 /-! ### the mathematical definition (`den`) -/
@@ -1161,9 +1201,36 @@ def specPeekOps : List PeekOp → List Val → List Val
   | .peek :: ops, xs => xs.head?.getD endMarker :: specPeekOps ops xs
   | .peekBack :: ops, xs => xs.getLast?.getD endMarker :: specPeekOps ops xs
 
+/-- the ideal sequence after a sequence of calls -/
+def specAfter (bidir : Bool) : List Bool → List Val → List Val
+  | [], xs => xs
+  | true :: ds, xs => specAfter bidir ds xs.tail
+  | false :: ds, xs => specAfter bidir ds (if bidir then xs.dropLast else xs)
+
+def specPeekAfter : List PeekOp → List Val → List Val
+  | [], xs => xs
+  | .next :: ops, xs => specPeekAfter ops xs.tail
+  | .back :: ops, xs => specPeekAfter ops xs.dropLast
+  | _ :: ops, xs => specPeekAfter ops xs
+
+def peekFrontOnly (ops : List PeekOp) : Bool := ops.all (fun o => o == .next || o == .peek)
+
 /-- consumer applied to a plain list -/
 def specCons (bidir : Bool) (c : Cons) (xs : List Val) : Ans :=
   match c with
+  | .copyOps pre post =>
+    -- copy and original are two independent ideal sequences starting where `pre` left off
+    let rest := specAfter bidir pre xs
+    let onC := (post.filter (·.1)).map (·.2)
+    let onO := (post.filter (fun p => !p.1)).map (·.2)
+    .ok (.tuple [.list (specCalls bidir pre xs), .list (specCalls bidir onC rest), .list (specCalls bidir onO rest)])
+  | .peekCopy pre post =>
+    let onC := (post.filter (·.1)).map (·.2)
+    let onO := (post.filter (fun p => !p.1)).map (·.2)
+    if bidir || (peekFrontOnly pre && peekFrontOnly onC && peekFrontOnly onO) then
+      let rest := specPeekAfter pre xs
+      .ok (.tuple [.list (specPeekOps pre xs), .list (specPeekOps onC rest), .list (specPeekOps onO rest)])
+    else .error .unsupported
   | .peekOps ops => if bidir || ops.all (fun o => o == .next || o == .peek) then .ok (.list (specPeekOps ops xs))
                     else .error .unsupported
   | .calls dirs => .ok (.list (specCalls bidir dirs xs))
